@@ -109,6 +109,28 @@ class VStr(V):
         return "VStr(%r)" % self.s
 
 
+class VStrSym(V):
+    """Symbolic string, known only up to identity: t is an Int term (non-negative ids for unknown strings; string
+    literals are interned to negative ids, see intern_str)."""
+
+    __slots__ = ("t",)
+
+    def __init__(self, t):
+        self.t = t
+
+    def __repr__(self):
+        return "VStrSym(%s)" % self.t
+
+
+_INTERN = {}
+
+
+def intern_str(s):
+    if s not in _INTERN:
+        _INTERN[s] = -(len(_INTERN) + 1)
+    return _INTERN[s]
+
+
 class VTuple(V):
     __slots__ = ("items", "cls")
 
@@ -253,6 +275,11 @@ class TInt(T):
         return "np.%sint%d" % ("" if self.np[1] else "u", self.np[0])
 
 
+class TStr(T):
+    def __repr__(self):
+        return "str"
+
+
 class TBool(T):
     def __repr__(self):
         return "PyBool"
@@ -361,3 +388,13 @@ def np_range(np):
     if signed:
         return -(1 << (bits - 1)), (1 << (bits - 1)) - 1
     return 0, (1 << bits) - 1
+
+
+def enum_members(cls):
+    """All named members of an Enum class in definition order (for IntFlag this includes composite / zero members,
+    which plain iteration skips); aliases of the same member object are listed once."""
+    out = []
+    for m in cls.__members__.values():
+        if not any(m is x for x in out):
+            out.append(m)
+    return out
